@@ -126,6 +126,10 @@ def stmt(s):
         lock = {"m1": "m1.lock(key)", "rw_r": "rw.read(key)", "rw_w": "rw.write(key)", "ct": "ct.lock(key)",
                 "pm": "pm.lock(key).unwrap()"}[x]
         return [], ["let g = %s;" % lock, "let _h: %s = Clone::clone(&g);" % ty]
+    if k == "n_guard_map":
+        ty = {"m1": "happylock::mutex::MutexGuard", "rw_w": "happylock::rwlock::RwLockWriteGuard",
+              "rw_r": "happylock::rwlock::RwLockReadGuard", "pm": "happylock::poisonable::PoisonGuard"}.get(x, "happylock::collection::LockGuard")
+        return [], ["let mut stash = None; let _rest = %s::map(g, |holds| { stash = Some(holds); });" % ty]
     if k == "n_hold_field":
         f = {"m1": "mutex", "rw_w": "rwlock", "rw_r": "rwlock"}.get(x, "guard")
         return [], ["let _h = g.%s;" % f]
@@ -207,7 +211,7 @@ C14_CLASSES = {"n_lock_moved_key", "n_nested_scoped_same_key", "n_lock_in_scoped
                "n_share_key_lock", "n_clone_key", "n_copy_key", "n_lock_borrowed_key", "n_lock_shared_ref_key",
                "n_guard_field", "n_scope_spawn_guard", "n_move_hold_out", "n_take_holds", "n_forge_key",
                "n_impl_keyable", "n_impl_sealed", "n_scoped_shared_ref_key", "n_clone_hold", "n_clone_guard",
-               "n_hold_field", "n_destructure_guard", "n_key_default", "n_key_from_thread", "n_guard_from_thread",
+               "n_hold_field", "n_destructure_guard", "n_guard_map", "n_key_default", "n_key_from_thread", "n_guard_from_thread",
                "n_key_in_static"}
 
 
